@@ -145,6 +145,57 @@ Definition validate (cs : list constr) : res bool :=
        | Ok s => validate_comparators s
        end.
 
+(* ---- simplify ---------------------------------------------------------------- *)
+(* VersionConstraint equality (attrs eq=True): same comparator and == versions *)
+Definition c_same (a b : constr) : bool :=
+  match a, b with
+  | Star, Star => true
+  | C o1 v1, C o2 v2 => cop_eqb o1 o2 && eqb v1 v2
+  | _, _ => false
+  end.
+
+(* deduplicate(): keep the first of exact duplicates (`c not in seen`, a set: __hash__ then __eq__) *)
+Fixpoint dedup_from (seen l : list constr) : list constr :=
+  match l with
+  | [] => []
+  | c :: r => if existsb (c_same c) seen then dedup_from seen r else c :: dedup_from (c :: seen) r
+  end.
+Definition deduplicate (l : list constr) : list constr := dedup_from [] l.
+
+(* the two rules of simplify_constraints *)
+Definition drop_next (cur nxt : constr) : bool := c_lower cur && (c_eq nxt || c_lower nxt).
+Definition drop_cur (cur nxt : constr) : bool := (c_eq cur || c_upper cur) && c_upper nxt.
+
+(* the index walk: `done` is constraints[:i] reversed, `rest` is constraints[i:] *)
+Fixpoint simp (fuel : nat) (done rest : list constr) : list constr :=
+  match fuel with
+  | 0 => rev_append done rest
+  | S f =>
+      match rest with
+      | cur :: nxt :: tl =>
+          if drop_next cur nxt then simp f done (cur :: tl)
+          else if drop_cur cur nxt then
+                 match done with
+                 | p :: d => simp f d (p :: nxt :: tl)
+                 | [] => simp f [] (nxt :: tl)
+                 end
+          else simp f (cur :: done) (nxt :: tl)
+      | _ => rev_append done rest
+      end
+  end.
+
+Definition simplify_constraints (cs : list constr) : res (list constr) :=
+  if Nat.ltb (length cs) 2 then Ok cs
+  else
+    let unequal := filter c_ne cs in
+    let core := filter (fun c => negb (c_ne c)) cs in
+    if is_nil core then Ok unequal
+    else sort_c (deduplicate (unequal ++ simp (2 * length core) [] core)).
+    (* sorted(set(...)): the set holds one of each group of equal constraints; its iteration
+       order is arbitrary, which the sort makes irrelevant (proved in Vers/SimplifyProofs.v) *)
+
+Definition simplify (cs : list constr) : res (list constr) := simplify_constraints (deduplicate cs).
+
 (* ---- invert ---------------------------------------------------------------- *)
 Definition invert_c (c : constr) : option constr :=
   match c with Star => None | C o v => Some (C (invert_table o) v) end.
